@@ -83,8 +83,42 @@ void world_fatal(const char *cls, const char *detail) {
     finish();
 }
 
+// ---- crash site reporting on the sanitizer-free build: print pc + frame-pointer chain relative to the image base; the driver
+// symbolises them offline (llvm-symbolizer) so that crash signatures are function-level on both builds ------------------------
+#if defined(__has_feature)
+#if __has_feature(address_sanitizer)
+#define SIM_HAS_ASAN 1
+#endif
+#endif
+#ifndef SIM_HAS_ASAN
+#include <signal.h>
+#include <ucontext.h>
+extern "C" char __executable_start;
+static void crash_handler(int sig, siginfo_t *, void *uc_) {
+    ucontext_t *uc = (ucontext_t *)uc_; char buf[512]; int o = 0;
+    uintptr_t pc = (uintptr_t)uc->uc_mcontext.gregs[REG_RIP], fp = (uintptr_t)uc->uc_mcontext.gregs[REG_RBP], base = (uintptr_t)&__executable_start;
+    o += snprintf(buf + o, sizeof buf - o, "SIMCRASH sig=%d pcs=0x%lx", sig, (unsigned long)(pc - base));
+    for (int d = 0; d < 7 && fp && !(fp & 7); d++) {
+        uintptr_t *f = (uintptr_t *)fp; uintptr_t ra = f[1], nfp = f[0];
+        if (ra < base || ra - base > (1ul << 30)) break;
+        o += snprintf(buf + o, sizeof buf - o, ",0x%lx", (unsigned long)(ra - base - 1));
+        if (nfp <= fp || nfp - fp > (1ul << 22)) break; fp = nfp;
+    }
+    buf[o++] = '\n'; if (write(2, buf, (size_t)o) < 0) {}
+    signal(sig, SIG_DFL); raise(sig);
+}
+static void install_crash_handler() {
+    static char altstack[65536]; stack_t ss; ss.ss_sp = altstack; ss.ss_size = sizeof altstack; ss.ss_flags = 0; sigaltstack(&ss, nullptr);
+    struct sigaction sa; memset(&sa, 0, sizeof sa); sa.sa_sigaction = crash_handler; sa.sa_flags = SA_SIGINFO | SA_ONSTACK | SA_NODEFER;
+    for (int s : {SIGSEGV, SIGBUS, SIGFPE, SIGILL, SIGABRT}) sigaction(s, &sa, nullptr);
+}
+#else
+static void install_crash_handler() {}
+#endif
+
 int main(int argc, char **argv) {
     if (argc < 3) { fprintf(stderr, "usage: simworld case.json result.json\n"); return 64; }
+    install_crash_handler();
     std::ifstream in(argv[1]); std::stringstream ss; ss << in.rdbuf(); bool ok = false; g_case = J::parse(ss.str(), &ok);
     if (!ok) { fprintf(stderr, "bad case json\n"); return 65; }
     g_result_path = argv[2];
